@@ -22,3 +22,9 @@ def run(chk):
     X.resubmitter_total(chk, "C07")
     wrapper_contracts.wrapper_obligations(chk, "C07", want=("C07",))
     wrapper_contracts.control_signals_not_exceptions(chk, "C07")
+    # safety causes of the liveness clauses (the clauses themselves stay undecided):
+    #  - "reaches FAILED after finitely many invocations": a failing step's retries are bounded because the strategy sees the true attempt count
+    hobl.c12_step(chk, explore("step"), prefix="C07")
+    #  - "no invocation blocks forever": every caller blocked on a synchronous checkpoint is woken when the checkpoint API fails
+    from . import batcher
+    batcher.check_consumer(chk, "C07")
